@@ -109,6 +109,23 @@ pub fn run(api: &str, case: &J) -> J {
                 Err(e) => json!({"ok": {"err": e}}),
             }
         }
+        // Number * / Number next to the unit operator on the same two units
+        "number_muldiv" => {
+            use libhaystack::units::get_unit;
+            use libhaystack::val::Number;
+            let fb = |k: &str| f64::from_bits(u64::from_str_radix(case[k].as_str().unwrap(), 16).unwrap());
+            let un = |k: &str| if case[k].is_null() { None } else { Some(get_unit(case[k].as_str().unwrap()).expect("unit")) };
+            let (x, y) = (fb("x"), fb("y"));
+            let a = Number { value: x, unit: un("a") }; let b = Number { value: y, unit: un("b") };
+            let (ua, ub) = (un("ua").unwrap(), un("ub").unwrap());
+            let mul = case["op"] == "mul";
+            let uop = if mul { ua * ub } else { ua / ub };
+            let r = if mul { a * b } else { a / b };
+            let want = if mul { x * y } else { x / y };
+            let name = |u: Option<&libhaystack::units::Unit>| match u { Some(u) => J::String(u.name().to_string()), None => J::Null };
+            let (number, value_ok) = match r { Ok(n) => (name(n.unit), n.value.to_bits() == want.to_bits() || (n.value.is_nan() && want.is_nan())), Err(_) => (J::String("ERR".into()), true) };
+            json!({"ok": {"number": number, "value_ok": value_ok, "unit_op": match uop { Ok(u) => name(Some(u)), Err(_) => J::String("ERR".into()) }}})
+        }
         // units::match_units(dim, scale) -> names, dims and scales of the returned database units
         "match_units" => {
             use libhaystack::units::{match_units, unit_dimension::UnitDimensions};
